@@ -124,6 +124,16 @@ int sqfs_meta_reader_seek(sqfs_meta_reader_t *m, sqfs_u64 block_start,
 	if ((block_start + 2 + size) > m->limit)
 		return SQFS_ERROR_OUT_OF_BOUNDS;
 
+	/*
+	 * The cached block is about to be overwritten. Forget it first, so
+	 * that a failure below cannot leave the data of a different (or of a
+	 * half read) block behind under the old block offset, or a read
+	 * cursor that points beyond the end of the new data.
+	 */
+	m->block_offset = 0xFFFFFFFFFFFFFFFFUL;
+	m->data_used = 0;
+	m->offset = 0;
+
 	err = m->file->read_at(m->file, block_start + 2, m->data, size);
 	if (err)
 		return err;
